@@ -21,7 +21,15 @@ RULE = ("profile objects are generated classes whose methods are decorated with 
         "directions (+y, -y, +x, -x) is the longest reach, also exact ties, mostly with anisotropic scales; angles at quarter turns and Pythagorean "
         "(3-4-5, 5-12-13, 8-15-17) directions, remove_projected_centre both ways, radial minima {absent, -1, 0, 1/4 .. 5} with "
         "coordinates on a 1/16 lattice around the centre including exactly at the centre (known finding) and exactly at radius = "
-        "minimum. Non-trivial = at least 2 coordinates reach the function; distinct = distinct JSON input.")
+        "minimum. Phase 2: every grid also natively stored (store_native=True from slim / full arrays with arbitrary masked entries, "
+        ".native; native Grid2D through makers and project_grid) and derived (copy, deepcopy, g[:], g+0.0, 1.0*g, -(-g), g+c, with_new_array, "
+        ".slim/.native round trips, ndarray views / Fortran order / strided views), integer dtype, full-mantissa coordinates; every call is wrapped "
+        "in a fingerprint of the caller's grid (array bytes, dtype, shape, mask object/bytes/scales/origin) and of the profile's centre/angle; "
+        "histories of 1-4 calls on living grid and profile objects (repeated call, other decorator / function / profile instance, second grid of "
+        "the same kind and mask on the same profile instance) with the user's in-place edits grid[k] = p / grid[k, c] = v between calls and returned "
+        "grids fed back as inputs, each call compared with model and specification on the contents current at that moment plus the array read "
+        "back after the call; whole histories scaled to units 2^-40, 2^-27, 2^34 (tolerance 1e-9 * unit). "
+        "Non-trivial = at least 2 coordinates reach the function (histories: always); distinct = distinct JSON input.")
 EXHAUSTIVE = {}
 TRUSTED = ["hand-written Gallina model coq/Model/C17.v, tied to /repo by this correspondence run: both the grid the user function "
            "received and the returned container are compared inside Coq (vm_compute) with tolerance 1e-9 (sqrt / trig are inexact)",
@@ -37,6 +45,9 @@ ASSUMPTIONS = ["real arithmetic (no rounding); finite inputs (no inf / NaN coord
 
 # --------------------------------------------------------------------------------------------- configuration overlay
 RMINS = ["-1", "0", "1/4", "1/2", "1", "5/4", "3/2", "2", "5/2", "13/4", "5"]
+UNITS = [-40, -27, 34]        # scaled copies of the whole case: lengths of the order 2^e (9e-13, 7e-9 -- the shipped radial minima are 1e-8 --, 2e10)
+def unit(e): return Fraction(2) ** e
+def all_rmins(): return RMINS + [str(Fraction(r) * unit(e)) for e in UNITS for r in RMINS]
 def _cls_name(rmin):
     if rmin is None: return "PavProfileNoEntry"
     f = Fraction(rmin)
@@ -53,17 +64,22 @@ def _cfg_dir(rpc):
                 f.write("grid:\n  remove_projected_centre: %s\n" % ("true" if rpc else "false"))
         with open(os.path.join(d, "grids.yaml"), "w") as f:
             f.write("radial_minimum:\n  radial_minimum:\n")
-            for r in RMINS: f.write(f"    {_cls_name(r)}: {float(Fraction(r))!r}\n")
+            for r in all_rmins(): f.write(f"    {_cls_name(r)}: {float(Fraction(r))!r}\n")
         _CFG[rpc] = d
     return _CFG[rpc]
+_STACKS = {}
 def push_cfg(rpc):
     import logging
     logging.getLogger("autoarray").setLevel(logging.ERROR)      # anisotropic pixel scales log a warning per access
     from autoconf import conf
     from autoconf.conf import RecursiveConfig
     if not _BASE: _BASE.extend(conf.instance.configs)          # [cwd/config (absent), <repo>/autoarray/config]
-    # exactly one overlay in front of the repository defaults (conf.instance.push would keep earlier overlays as fall-backs)
-    conf.instance.configs = [RecursiveConfig(_cfg_dir(rpc if rpc == "default" else bool(rpc)))] + list(_BASE)
+    key = rpc if rpc == "default" else bool(rpc)
+    # exactly one overlay in front of the repository defaults (conf.instance.push would keep earlier overlays as fall-backs).
+    # Assigning `configs` makes autoconf re-read every yaml file at the next lookup, so the assignment is made only when the
+    # overlay really changes and the three stacks are kept (the files do not change during a run).
+    if key not in _STACKS: _STACKS[key] = [RecursiveConfig(_cfg_dir(key))] + list(_BASE)
+    if conf.instance.configs is not _STACKS[key]: conf.instance.configs = _STACKS[key]
 
 # --------------------------------------------------------------------------------------------- user functions
 def F(x, d=None): return Fraction(x) if d is None else Fraction(x, d)
@@ -90,6 +106,9 @@ def uapply(u, cs):
     if u["list"]: return [uapply1(f, cs) for f in u["fs"]]
     return uapply1(u["fs"][0], cs)
 
+def renative(x, hw):
+    return x.reshape(hw + x.shape[1:]) if x.shape[0] == hw[0] * hw[1] else x
+
 SF = {"aff": "SAff", "quad": "SQuad", "idx": "SIdx", "cum": "SCum", "mir": "SMir", "drop": "SDrop"}
 def c_sfun(s): return "(@" + SF[s[0]] + " QOps " + " ".join(cq(F(v)) for v in s[1:]) + ")"
 def c_ufun1(f):
@@ -109,6 +128,94 @@ def fr2(p): return [F(p[0]), F(p[1])]
 def frs(l): return [F(v) for v in l]
 def frps(l): return [fr2(p) for p in l]
 
+def pm2(g): return {"bits": g["bits"], "ps": fr2(g["ps"]), "org": fr2(g["org"])}
+def pm1(g): return {"bits": g["bits"], "ps": F(g["ps"]), "org": F(g["org"])}
+
+# --------------------------------------------------------------------------------------------- grids: construction, storage, derivation
+# g = {"k": mask|2d|irr|raw|1d, ..., "store": slim|ctor_native|ctor_full (+ "junk"), "derive": [op, ...]}
+#   store  ctor_native : Grid1D / Grid2D(values = slim values, mask, store_native=True)
+#          ctor_full   : ... (values = one value per pixel, "junk" in the masked ones, store_native=True): the constructor zeroes them
+#   derive ops (applied left to right to the constructed object; the result is what the decorators get):
+#          native, slim (.native / .slim), copy, deepcopy, slice (g[:]), add0 (g + 0.0), mul1 (1.0 * g), neg2 (-(-g)),
+#          wna (g.with_new_array(copy of its array)), ["shift", c] (g + c: every stored entry, also the masked ones of a native
+#          array, moves by c), and for ndarrays: fortran (np.asfortranarray), stride (every other row of a larger buffer), view
+def exact_centres(g):
+    H, W = len(g["bits"]), len(g["bits"][0])
+    psy, psx = fr2(g["ps"]); oy, ox = fr2(g["org"])
+    return [[(F(H - 1) / 2 - y) * psy + oy, (x - F(W - 1) / 2) * psx + ox]
+            for y in range(H) for x in range(W) if not g["bits"][y][x]]
+def flat_bits(g): return [b for r in g["bits"] for b in r] if g["k"] in ("mask", "2d", "2dnat") else list(g["bits"])
+def to_native(bits, vals, junk):
+    it = iter(vals); return [junk if b else next(it) for b in bits]
+def to_slim(bits, vals): return [v for b, v in zip(bits, vals) if not b]
+def fl_add(a, c): return Fraction(float(a) + float(c))          # what numpy does to one stored double
+
+def shadow_of(g):
+    """the exact contents the object handed to the decorators must hold, computed from the INPUT alone: a dict of kind
+    mask / 2d / irr / raw / 1d (slim storage: "cs" / "xs") or 1dnat / 2dnat (native storage: "nv" / "nc", one entry per pixel)"""
+    k = g["k"]
+    sh = {"k": k}
+    for f in ("bits", "ps", "org"):
+        if f in g: sh[f] = g[f]
+    one_d = k == "1d"
+    if k == "mask": vals = exact_centres(g)
+    elif one_d: vals = frs(g["xs"])
+    else: vals = frps(g["cs"])
+    native = False
+    zero = F(0) if one_d else [F(0), F(0)]
+    store = g.get("store", "slim")
+    if store != "slim":
+        if k not in ("mask", "2d", "1d"): raise ValueError("native storage needs a mask")
+        vals = to_native(flat_bits(g), vals, zero); native = True        # the constructor zeroes the masked entries
+    touched = store != "slim"
+    for d in g.get("derive", []):
+        op = d if isinstance(d, str) else d[0]
+        touched = True
+        if op == "native":
+            if k in ("mask", "2d", "1d"):        # .native of a native array multiplies the masked entries by 0 again
+                vals = to_native(flat_bits(g), to_slim(flat_bits(g), vals) if native else vals, zero); native = True
+        elif op == "slim":
+            if native: vals = to_slim(flat_bits(g), vals); native = False
+        elif op == "shift":
+            c = F(d[1])
+            vals = [fl_add(v, c) for v in vals] if one_d else [[fl_add(v[0], c), fl_add(v[1], c)] for v in vals]
+        elif op in ("copy", "deepcopy", "slice", "add0", "mul1", "neg2", "wna", "fortran", "stride", "view"): pass
+        else: raise ValueError(op)
+    if native:
+        sh["k"] = "1dnat" if one_d else "2dnat"
+        sh["nv" if one_d else "nc"] = vals
+    elif k == "mask" and not touched: pass                               # Grid2D.from_mask as it is: the model computes the centres
+    else:
+        if k == "mask": sh["k"] = "2d"
+        sh["xs" if one_d else "cs"] = vals
+    return sh
+
+def sh_stored(sh):
+    """the stored entries of a shadow, as pairs (1-D: (0, x))"""
+    k = sh["k"]
+    if k == "mask": return exact_centres(sh)
+    if k == "1d": return [[F(0), F(v)] for v in sh["xs"]]
+    if k == "1dnat": return [[F(0), F(v)] for v in sh["nv"]]
+    if k == "2dnat": return [fr2(p) for p in sh["nc"]]
+    return frps(sh["cs"])
+def sh_coords(sh):
+    """coordinate k of the grid (slim order), as pairs"""
+    k = sh["k"]
+    if k in ("1dnat", "2dnat"): return to_slim(flat_bits(sh), sh_stored(sh))
+    return sh_stored(sh)
+def sh_edit(sh, k, v, comp=None):
+    """grid[k] = v (comp None) or grid[k, comp] = v on the stored array"""
+    sh = dict(sh)
+    if sh["k"] == "mask": sh["cs"] = exact_centres(sh); sh["k"] = "2d"
+    f = {"1d": "xs", "1dnat": "nv", "2dnat": "nc"}.get(sh["k"], "cs")
+    vals = list(sh[f])
+    if sh["k"] in ("1d", "1dnat"): vals[k] = F(v)
+    elif comp is None: vals[k] = fr2(v)
+    else:
+        q = list(fr2(vals[k])); q[comp] = F(v); vals[k] = q
+    sh[f] = vals
+    return sh
+
 def c_gspec(g):
     k = g["k"]
     if k == "mask": return f"(SMask {c_mask2(pm2(g))})"
@@ -116,23 +223,83 @@ def c_gspec(g):
     if k == "irr": return f"(SIrr {c_pts(frps(g['cs']))})"
     if k == "raw": return f"(SRaw {c_pts(frps(g['cs']))})"
     if k == "1d": return f"(S1D {c_mask1(pm1(g))} {c_vals(frs(g['xs']))})"
+    if k == "1dnat": return f"(S1DNat {c_mask1(pm1(g))} {c_vals(frs(g['nv']))})"
+    if k == "2dnat": return f"(S2DNat {c_mask2(pm2(g))} {c_pts(frps(g['nc']))})"
     raise ValueError(k)
-def pm2(g): return {"bits": g["bits"], "ps": fr2(g["ps"]), "org": fr2(g["org"])}
-def pm1(g): return {"bits": g["bits"], "ps": F(g["ps"]), "org": F(g["org"])}
+
+def fl(v): return float(F(v))
+def derive(aa, obj, d):
+    import copy as _copy
+    op = d if isinstance(d, str) else d[0]
+    raw = isinstance(obj, np.ndarray)
+    if op == "native": return obj if raw else obj.native
+    if op == "slim": return obj if raw else obj.slim
+    if op == "copy": return obj.copy() if raw else _copy.copy(obj)
+    if op == "deepcopy": return _copy.deepcopy(obj)
+    if op == "slice": return obj[:]
+    if op == "view": return obj[:] if raw else obj
+    if op == "add0": return obj + 0.0
+    if op == "mul1": return 1.0 * obj
+    if op == "neg2": return -(-obj)
+    if op == "shift": return obj + fl(d[1])
+    if op == "wna": return obj if raw else obj.with_new_array(np.array(obj.array, copy=True))
+    if op == "fortran": return np.asfortranarray(obj) if raw else obj
+    if op == "stride":
+        if not raw: return obj
+        big = np.full((2 * obj.shape[0] + 1, 4), 777.0); big[1::2, 1:3] = obj
+        return big[1::2, 1:3]
+    raise ValueError(op)
 
 def build_grid(aa, g):
     k = g["k"]
+    store = g.get("store", "slim")
+    dt = int if g.get("dtype") == "int" else float      # integer arrays are kept as they are by the structures
     if k in ("mask", "2d"):
-        mask = aa.Mask2D(mask=np.array(g["bits"], dtype=bool), pixel_scales=tuple(float(F(v)) for v in g["ps"]),
-                         origin=tuple(float(F(v)) for v in g["org"]))
-        if k == "mask": return aa.Grid2D.from_mask(mask=mask)
-        return aa.Grid2D(values=np.array([[float(F(a)), float(F(b))] for a, b in g["cs"]]).reshape(-1, 2), mask=mask)
-    if k == "irr": return aa.Grid2DIrregular(values=[(float(F(a)), float(F(b))) for a, b in g["cs"]])
-    if k == "raw": return np.array([[float(F(a)), float(F(b))] for a, b in g["cs"]]).reshape(-1, 2)
-    if k == "1d":
-        mask = aa.Mask1D(mask=np.array(g["bits"], dtype=bool), pixel_scales=float(F(g["ps"])), origin=(float(F(g["org"])),))
-        return aa.Grid1D(values=np.array([float(F(v)) for v in g["xs"]]), mask=mask)
-    raise ValueError(k)
+        mask = aa.Mask2D(mask=np.array(g["bits"], dtype=bool), pixel_scales=tuple(fl(v) for v in g["ps"]),
+                         origin=tuple(fl(v) for v in g["org"]))
+        if k == "mask" and store == "slim": obj = aa.Grid2D.from_mask(mask=mask)
+        else:
+            cs = exact_centres(g) if k == "mask" else frps(g["cs"])
+            vals = np.array([[float(a), float(b)] for a, b in cs]).reshape(-1, 2)
+            if dt is int and store == "slim": vals = vals.astype(int)
+            if store == "slim": obj = aa.Grid2D(values=vals, mask=mask)
+            elif store == "ctor_native": obj = aa.Grid2D(values=vals, mask=mask, store_native=True)
+            else:
+                junk = [[fl(a), fl(b)] for a, b in g["junk"]]
+                full = to_native(flat_bits(g), [list(v) for v in vals], None)
+                it = iter(junk); full = [next(it) if v is None else v for v in full]
+                H, W = len(g["bits"]), len(g["bits"][0])
+                obj = aa.Grid2D(values=np.array(full).reshape(H, W, 2), mask=mask, store_native=True)
+    elif k == "irr":
+        obj = aa.Grid2DIrregular(values=[(dt(F(a)), dt(F(b))) for a, b in g["cs"]])
+    elif k == "raw": obj = np.array([[dt(F(a)), dt(F(b))] for a, b in g["cs"]], dtype=dt).reshape(-1, 2)
+    elif k == "1d":
+        mask = aa.Mask1D(mask=np.array(g["bits"], dtype=bool), pixel_scales=fl(g["ps"]), origin=(fl(g["org"]),))
+        xs = [fl(v) for v in g["xs"]]
+        if store == "slim": obj = aa.Grid1D(values=np.array(xs, dtype=dt), mask=mask)
+        elif store == "ctor_native": obj = aa.Grid1D(values=np.array(xs), mask=mask, store_native=True)
+        else:
+            it = iter([fl(v) for v in g["junk"]])
+            full = [next(it) if v is None else v for v in to_native(g["bits"], xs, None)]
+            obj = aa.Grid1D(values=np.array(full), mask=mask, store_native=True)
+    else: raise ValueError(k)
+    for d in g.get("derive", []): obj = derive(aa, obj, d)
+    return obj
+
+def stored_of(obj):
+    """the entries of the object's array, as exact pairs (1-D: (0, x))"""
+    a = np.array(obj.array if hasattr(obj, "array") else obj, dtype=float)
+    if type(obj).__name__ == "Grid1D": return [[F(0), frac(v)] for v in a.ravel()]
+    return [[frac(r[0]), frac(r[1])] for r in a.reshape(-1, 2)]
+def fingerprint(obj):
+    """everything a decorated call must leave as it was"""
+    a = obj.array if hasattr(obj, "array") else obj
+    fp = [type(obj).__name__, type(a).__name__, str(a.dtype), tuple(a.shape), np.array(a, copy=True).tobytes()]
+    fp.append(getattr(obj, "_is_transformed", None) if not isinstance(obj, np.ndarray) else None)
+    m = getattr(obj, "mask", None)
+    if m is not None and not isinstance(obj, np.ndarray):
+        fp += [id(m), np.array(m).tobytes(), tuple(m.shape), tuple(float(v) for v in m.pixel_scales), tuple(float(v) for v in m.origin)]
+    return fp
 
 # --------------------------------------------------------------------------------------------- encoding the implementation's output
 def enc_mask2(m):
@@ -195,8 +362,12 @@ def profile_class(aa, rmin):
         def _f(self, grid):
             self.calls += 1
             self.seen_obj = grid
-            self.seen = to_nd(grid).reshape(-1, 2)
-            return uapply(self.u, self.seen)
+            a = to_nd(grid)
+            self.seen = a.reshape(-1, 2)
+            r = uapply(self.u, self.seen)
+            if a.ndim == 3:          # a natively stored Grid2D: a function written for it returns results of native shape
+                r = [renative(x, a.shape[:2]) for x in r] if isinstance(r, list) else renative(r, a.shape[:2])
+            return r
         # the profile's own geometry methods (what PyAutoGalaxy's profiles supply)
         def radial_grid_from(self, grid):
             if self.rad[0] == "euclid":
@@ -205,7 +376,9 @@ def profile_class(aa, rmin):
             return np.sqrt(np.add(np.square(grid[:, 0]), np.square(np.divide(grid[:, 1], q))))
         def transformed_to_reference_frame_grid_from(self, grid, **kwargs):
             self.tf_calls += 1
-            arr = geometry_util.transform_grid_2d_to_reference_frame(grid_2d=to_nd(grid), centre=self.centre, angle=self.angle)
+            # the grid's own buffer goes into the frame map (no copy), as in PyAutoGalaxy's profiles
+            buf = grid.array if hasattr(grid, "array") else grid
+            arr = geometry_util.transform_grid_2d_to_reference_frame(grid_2d=buf, centre=self.centre, angle=self.angle)
             return grid.with_new_array(arr) if hasattr(grid, "with_new_array") else arr
         # single decorators
         @dec.to_array
@@ -259,7 +432,7 @@ def angle_deg(a):
     q = {(1.0, 0.0): 0.0, (0.0, 1.0): 90.0, (-1.0, 0.0): 180.0, (0.0, -1.0): -90.0}
     return q.get((c, s), math.degrees(math.atan2(s, c)))
 
-# --------------------------------------------------------------------------------------------- running one case
+# --------------------------------------------------------------------------------------------- running one call
 def call(fn, grid):
     try:
         return ("ok", fn(grid))
@@ -271,112 +444,242 @@ def n_coords(g):
     if g["k"] == "1d": return sum(1 for b in g["bits"] if not b)
     return len(g["cs"])
 
-def frame_pts(inp):
+def frame_pts(ci, sh):
     """exact coordinates, in the profile frame, that the radial-minimum step looks at (Fractions)"""
-    g = inp["grid"]
-    if g["k"] == "mask":
-        H, W = len(g["bits"]), len(g["bits"][0])
-        psy, psx = fr2(g["ps"]); oy, ox = fr2(g["org"])
-        cs = [[(F(H - 1) / 2 - y) * psy + oy, (x - F(W - 1) / 2) * psx + ox]
-              for y in range(H) for x in range(W) if not g["bits"][y][x]]
-    elif g["k"] == "1d": cs = [[F(0), F(v)] for v in g["xs"]]
-    else: cs = frps(g["cs"])
-    if inp["op"] == "stack":
-        cy, cx = fr2(inp["centre"]); c, s = fr2(inp["angle"])
+    cs = sh_coords(sh)
+    if ci["op"] == "stack":
+        cy, cx = fr2(ci["centre"]); c, s = fr2(ci["angle"])
         cs = [[(y - cy) * c - (x - cx) * s, (x - cx) * c + (y - cy) * s] for y, x in cs]
     return cs
-def rad2(inp, p):
-    if inp["op"] == "relocate" and inp["rad"][0] == "ellip":
-        return p[0] ** 2 + (p[1] / F(inp["rad"][1])) ** 2
+def rad2(ci, p):
+    if ci["op"] == "relocate" and ci["rad"][0] == "ellip":
+        return p[0] ** 2 + (p[1] / F(ci["rad"][1])) ** 2
     return p[0] ** 2 + p[1] ** 2
 
 FINDING = "coordinate equals the profile centre"
 SKIPPED = {"band": 0}
 
-def classify(inp):
-    """(finding key or None, in_band): computed from the INPUT only"""
-    if inp["op"] not in ("relocate", "stack") or inp["rmin"] is None: return None, False
-    rm = F(inp["rmin"])
+def classify(ci, sh, e=0):
+    """(finding key or None, in_band): computed from the INPUT only (the call's parameters and the grid's current contents)"""
+    if ci["op"] not in ("relocate", "stack") or ci["rmin"] is None: return None, False
+    u2 = unit(e) ** 2
+    rm = F(ci["rmin"])
     if rm <= 0: return None, False
-    pts = frame_pts(inp)
+    pts = frame_pts(ci, sh)
     at_centre = any(p[0] == 0 and p[1] == 0 for p in pts)
-    exact = inp["op"] == "relocate"          # no trig in front of the comparison: exact boundary cases are decidable
-    band = any((rad2(inp, p) == rm * rm and not exact) or (0 < abs(rad2(inp, p) - rm * rm) < F(1, 1024)) for p in pts)
+    exact = ci["op"] == "relocate"          # no trig in front of the comparison: exact boundary cases are decidable
+    band = any((rad2(ci, p) == rm * rm and not exact) or (0 < abs(rad2(ci, p) - rm * rm) < F(1, 1024) * u2) for p in pts)
     return (FINDING if at_centre else None), band
 
-def run_case(inp):
-    aa = import_aa()
-    op = inp["op"]
-    g = inp["grid"]; u = inp["u"]
-    finding, band = classify(inp)
-    if band:
-        SKIPPED["band"] += 1
-        return {"coq": None, "out": "skipped: a radius within 1e-3 of the radial minimum", "py_ok": None, "kind": op + ":skipped", "nontrivial": False}
-    rpc_in = inp.get("rpc", False)
+_POOL = {}
+def profile_obj(aa, ci, pool):
+    """the profile instance of a call: a fresh one, or (histories) the one living in slot ci["o"] of the pool -- the same
+    instance then serves several calls, with other grids, functions, centres and angles"""
+    op = ci["op"]
+    cls = profile_class(aa, ci.get("rmin") if op in ("relocate", "stack") else "1")
+    key = (cls.__name__, ci.get("o"))
+    if pool is not None and ci.get("o") is not None and key in pool: obj = pool[key]
+    else:
+        obj = cls(None)
+        if pool is not None and ci.get("o") is not None: pool[key] = obj
+    obj.u = ci["u"]; obj.rad = tuple(ci["rad"]) if op == "relocate" else ("euclid",)
+    obj.seen = None; obj.seen_obj = None; obj.calls = 0; obj.tf_calls = 0
+    for a in ("centre", "angle"):
+        if a in obj.__dict__: del obj.__dict__[a]
+    return obj
+
+def do_call(aa, ci, grid, sh, pool=None):
+    """one decorated call on the object `grid` whose exact contents are the shadow `sh`.
+    returns dict(parts = (constructor suffix, args before the grid, args after), notes, py_ok, seen, out, finding)"""
+    op = ci["op"]; u = ci["u"]
+    rpc_in = ci.get("rpc", False)
     push_cfg(rpc_in)
     rpc = False if rpc_in == "default" else bool(rpc_in)      # the repository default (after fixes/C17_default_config...) is false
-    grid = build_grid(aa, g)
-    rmin = inp.get("rmin")
-    cls = profile_class(aa, rmin if op in ("relocate", "stack") else "1")
-    obj = cls(u, tuple(inp["rad"]) if op == "relocate" else ("euclid",))
+    rmin = ci.get("rmin")
+    obj = profile_obj(aa, ci, pool)
     py_ok = True
     notes = []
     if op == "make":
-        fn = {"array": obj.m_array, "grid": obj.m_grid, "vector": obj.m_vector}[inp["dec"]]
+        fn = {"array": obj.m_array, "grid": obj.m_grid, "vector": obj.m_vector}[ci["dec"]]
     elif op == "project":
-        if inp["centre"] != "absent": obj.centre = None if inp["centre"] is None else tuple(float(F(v)) for v in inp["centre"])
-        if inp["angle"] != "absent": obj.angle = None if inp["angle"] is None else angle_deg(inp["angle"])
+        if ci["centre"] != "absent": obj.centre = None if ci["centre"] is None else tuple(fl(v) for v in ci["centre"])
+        if ci["angle"] != "absent": obj.angle = None if ci["angle"] is None else angle_deg(ci["angle"])
         fn = obj.m_project
     elif op == "relocate":
         fn = obj.m_relocate
     elif op == "stack":
-        obj.centre = tuple(float(F(v)) for v in inp["centre"]); obj.angle = angle_deg(inp["angle"])
-        fn = getattr(obj, ("n_" if inp["nested"] else "s_") + inp["dec"])
+        obj.centre = tuple(fl(v) for v in ci["centre"]); obj.angle = angle_deg(ci["angle"])
+        fn = getattr(obj, ("n_" if ci["nested"] else "s_") + ci["dec"])
     else:
         raise ValueError(op)
+    attrs = (getattr(obj, "centre", "absent"), getattr(obj, "angle", "absent"))
+    before = fingerprint(grid)
     r = call(fn, grid)
+    after = fingerprint(grid)
+    if before != after:
+        py_ok = False
+        what = [n for n, a, b in zip(("type", "array type", "dtype", "shape", "array content", "_is_transformed", "mask object", "mask content", "mask shape",
+                                      "pixel scales", "origin"), before, after) if a != b]
+        notes.append("the decorated call changed the caller's grid in place: " + ", ".join(what))
+    if attrs != (getattr(obj, "centre", "absent"), getattr(obj, "angle", "absent")):
+        py_ok = False; notes.append("the decorated call changed the profile's centre / angle")
     seen = [] if obj.seen is None else enc_pairs(obj.seen)
+    k = sh["k"]
     if r[0] == "ok":
         out = ("ok", enc_output(r[1]))
         # relations only Python can see: object identity of the mask, the container handed to the function, call counts
         res0 = r[1][0] if isinstance(r[1], list) and r[1] else r[1]
-        if op in ("make", "stack") and g["k"] in ("mask", "2d") and hasattr(res0, "mask"):
+        if op in ("make", "stack") and k in ("mask", "2d", "2dnat") and hasattr(res0, "mask"):
             if res0.mask is not grid.mask: py_ok = False; notes.append("returned container is not on the input grid's mask object")
-        if op in ("make",) and g["k"] == "1d" and inp["dec"] == "array" and hasattr(res0, "mask"):
+        if op in ("make",) and k in ("1d", "1dnat") and ci["dec"] == "array" and hasattr(res0, "mask"):
             if res0.mask is not grid.mask: py_ok = False; notes.append("returned Array1D is not on the input grid's mask object")
-        if op in ("relocate", "stack", "make") and g["k"] in ("mask", "2d", "irr") and obj.seen_obj is not None:
+        if op in ("relocate", "stack", "make") and k in ("mask", "2d", "2dnat", "irr") and obj.seen_obj is not None:
             if type(obj.seen_obj).__name__ != type(grid).__name__:
                 py_ok = False; notes.append(f"function received a {type(obj.seen_obj).__name__} for a {type(grid).__name__} input")
-            elif g["k"] != "irr" and obj.seen_obj.mask is not grid.mask:
+            elif k != "irr" and obj.seen_obj.mask is not grid.mask:
                 py_ok = False; notes.append("function received a grid on a different mask object")
+        fits = not any(sf[0] == "drop" for f in u["fs"] for sf in f[1:])      # the function returned one entry per coordinate
+        for x in (r[1] if isinstance(r[1], list) else [r[1]]):
+            # "one entry per unmasked pixel in slim order": the container itself, not only its .slim view
+            if fits and type(x).__name__ in ("Array2D", "Grid2D", "VectorYX2D", "Array1D") and hasattr(x, "mask"):
+                want = (int(x.mask.pixels_in_mask),) + ((2,) if type(x).__name__ in ("Grid2D", "VectorYX2D") else ())
+                if tuple(x.array.shape) != want:
+                    py_ok = False; notes.append(f"returned {type(x).__name__} stores an array of shape {tuple(x.array.shape)}, not one entry per unmasked pixel {want}")
         if op == "stack" and obj.tf_calls != 1: py_ok = False; notes.append(f"grid transformed {obj.tf_calls} times")
         if obj.calls != 1: py_ok = False; notes.append(f"user function called {obj.calls} times")
     else:
         out = ("raise", r[1])
         notes.append(r[2])
     sn = c_pts(seen)
+    tail = f"{c_ufun(u)} {sn} {c_rout(out)}"
     if op == "make":
-        coq = f"(KMake {DEC[inp['dec']]} {c_gspec(g)} {c_ufun(u)} {sn} {c_rout(out)})"
+        parts = ("Make", DEC[ci['dec']], tail)
     elif op == "project":
-        c = None if inp["centre"] in (None, "absent") else fr2(inp["centre"])
-        a = None if inp["angle"] in (None, "absent") else fr2(inp["angle"])
-        coq = f"(KProject {c_opt(c, c_pt)} {c_opt(a, c_pt)} {cbool(rpc)} {c_gspec(g)} {c_ufun(u)} {sn} {c_rout(out)})"
+        c = None if ci["centre"] in (None, "absent") else fr2(ci["centre"])
+        a = None if ci["angle"] in (None, "absent") else fr2(ci["angle"])
+        parts = ("Project", f"{c_opt(c, c_pt)} {c_opt(a, c_pt)} {cbool(rpc)}", tail)
     elif op == "relocate":
-        rf = "REuclid" if inp["rad"][0] == "euclid" else f"(REllip {cq(F(inp['rad'][1]))})"
-        coq = f"(KRelocate {c_opt(None if rmin is None else F(rmin), cq)} {rf} {c_gspec(g)} {c_ufun(u)} {sn} {c_rout(out)})"
+        rf = "REuclid" if ci["rad"][0] == "euclid" else f"(REllip {cq(F(ci['rad'][1]))})"
+        parts = ("Relocate", f"{c_opt(None if rmin is None else F(rmin), cq)} {rf}", tail)
     else:
-        coq = (f"(KStack {DEC[inp['dec']]} {c_opt(None if rmin is None else F(rmin), cq)} {c_pt(fr2(inp['centre']))} "
-               f"{c_pt(fr2(inp['angle']))} {cbool(inp['nested'])} {c_gspec(g)} {c_ufun(u)} {sn} {c_rout(out)})")
-    extra = []
-    if op == "project" and g["k"] in ("mask", "2d"):
-        c0 = [F(0), F(0)] if inp["centre"] in (None, "absent") else fr2(inp["centre"])
+        parts = ("Stack", f"{DEC[ci['dec']]} {c_opt(None if rmin is None else F(rmin), cq)} {c_pt(fr2(ci['centre']))} "
+                          f"{c_pt(fr2(ci['angle']))} {cbool(ci['nested'])}", tail)
+    res = {"parts": parts, "notes": notes, "py_ok": py_ok, "raised": r[0] != "ok", "seen": seen, "out": out}
+    if r[0] == "ok": res["result"] = r[1]
+    return res
+
+def k_term(parts, sh): return f"(K{parts[0]} {parts[1]} {c_gspec(sh)} {parts[2]})"
+def c_term(parts): return f"(C{parts[0]} {parts[1]} {parts[2]})"
+
+def holds(obj, sh, e=0):
+    """the constructed / derived object stores what the input says (precondition of every comparison)"""
+    a, b = stored_of(obj), sh_stored(sh)
+    t = Fraction(1, 10 ** 12) * unit(e)
+    return len(a) == len(b) and all(abs(p[0] - q[0]) <= t and abs(p[1] - q[1]) <= t for p, q in zip(a, b))
+
+def shape_case(aa, ci, grid, sh):
+    if ci["op"] == "project" and sh["k"] in ("mask", "2d", "2dnat"):
+        c0 = [F(0), F(0)] if ci["centre"] in (None, "absent") else fr2(ci["centre"])
         n = grid.grid_2d_radial_projected_shape_slim_from(centre=(float(c0[0]), float(c0[1])))
-        extra.append(f"(KShape {c_mask2(pm2(g))} {c_pt(c0)} {cz(int(n))})")
-    res = {"coq": coq, "extra_coq": extra, "out": {"seen": [[str(a), str(b)] for a, b in seen][:12], "result": summarize(out), "notes": notes},
-           "py_ok": py_ok if r[0] == "ok" else None, "kind": op + ":" + g["k"] + (":" + inp["dec"] if "dec" in inp else ""),
-           "nontrivial": len(seen) >= 2}
+        return [f"(KShape {c_mask2(pm2(sh))} {c_pt(c0)} {cz(int(n))})"]
+    return []
+
+def kind_of(ci, sh): return ci["op"] + ":" + sh["k"] + (":" + ci["dec"] if "dec" in ci else "")
+def variant_full(g):
+    v = ([g["store"]] if g.get("store", "slim") != "slim" else []) + [d if isinstance(d, str) else d[0] for d in g.get("derive", [])]
+    return ("+" + "+".join(v)) if v else ""
+def variant(g): return "+derived" if g.get("derive") else ""
+
+def run_case(inp):
+    aa = import_aa()
+    if inp["op"] == "hist": return run_hist(aa, inp)
+    g = inp["grid"]
+    sh = shadow_of(g)
+    finding, band = classify(inp, sh)
+    if band:
+        SKIPPED["band"] += 1
+        return {"coq": None, "out": "skipped: a radius within 1e-3 of the radial minimum", "py_ok": None, "kind": inp["op"] + ":skipped", "nontrivial": False}
+    grid = build_grid(aa, g)
+    if not holds(grid, sh):
+        return {"coq": None, "out": {"stored": [[str(a), str(b)] for a, b in stored_of(grid)][:12]}, "py_ok": False, "kind": "construct:" + g["k"],
+                "nontrivial": True, "detail": "the constructed / derived grid does not store the requested contents (" + variant_full(g) + ")"}
+    d = do_call(aa, inp, grid, sh)
+    res = {"coq": k_term(d["parts"], sh), "extra_coq": shape_case(aa, inp, grid, sh),
+           "out": {"seen": [[str(a), str(b)] for a, b in d["seen"]][:12], "result": summarize(d["out"]), "notes": d["notes"]},
+           "py_ok": d["py_ok"] if not (d["raised"] and d["py_ok"]) else None, "kind": kind_of(inp, sh) + variant(g),
+           "nontrivial": len(d["seen"]) >= 2}
+    if not d["py_ok"]: res["detail"] = "; ".join(d["notes"])
+    elif finding: res["finding"] = finding          # a listed finding never absorbs a Python-side relation that failed
+    return res
+
+# --------------------------------------------------------------------------------------------- histories
+# {"op": "hist", "e": unit exponent, "rpc": bool, "grids": [g, ...], "steps": [step, ...]}
+#   step = {"t": "call", "gi": i, <the fields of a single call without "grid">, "o": profile slot or None}
+#        | {"t": "edit", "gi": i, "k": stored index, "v": [y, x] | x, "comp": None | 0 | 1}      grid[k] = v  /  grid[k, comp] = v
+# The grid objects are built once and live through the history; nothing but the edits may change what they hold.
+def py_edit(obj, k, v, comp):
+    one_d = type(obj).__name__ == "Grid1D"
+    a = obj.array if hasattr(obj, "array") else obj
+    if one_d: obj[k] = fl(v); return
+    if a.ndim == 3:
+        idx = (k // a.shape[1], k % a.shape[1])
+        if comp is None: obj[idx] = (fl(v[0]), fl(v[1]))
+        else: obj[idx + (comp,)] = fl(v)
+    elif comp is None: obj[k] = (fl(v[0]), fl(v[1]))
+    else: obj[k, comp] = fl(v)
+
+def run_hist(aa, inp):
+    e = inp.get("e", 0)
+    shs = [shadow_of(g) for g in inp["grids"]]
+    objs = [build_grid(aa, g) for g in inp["grids"]]
+    for o, sh, g in zip(objs, shs, inp["grids"]):
+        if not holds(o, sh, e):
+            return {"coq": None, "out": {"stored": [[str(a), str(b)] for a, b in stored_of(o)][:12]}, "py_ok": False, "kind": "construct:" + g["k"],
+                    "nontrivial": True, "detail": "the constructed / derived grid does not store the requested contents (" + variant_full(g) + ")"}
+    shs0 = list(shs)
+    pool = {}
+    steps = []; notes = []; py_ok = True; finding = None; outs = []; ncalls = 0; kinds = []
+    for st in inp["steps"]:
+        gi = st["gi"]
+        if st["t"] == "edit":
+            if gi >= len(objs): continue
+            if st["k"] >= len(sh_stored(shs[gi])): continue
+            py_edit(objs[gi], st["k"], st["v"], st.get("comp"))
+            old = sh_stored(shs[gi])[st["k"]]
+            shs[gi] = sh_edit(shs[gi], st["k"], st["v"], st.get("comp"))
+            new = sh_stored(shs[gi])[st["k"]]
+            steps.append(f"(HEdit {cnat(gi)} {cnat(st['k'])} {c_pt(new)})")
+            continue
+        if gi >= len(objs): continue                  # a grid that was to come out of an earlier call which raised / was skipped
+        ci = dict(st); ci["rpc"] = inp.get("rpc", False)
+        fnd, band = classify(ci, shs[gi], e)
+        if band:
+            SKIPPED["band"] += 1; continue
+        d = do_call(aa, ci, objs[gi], shs[gi], pool)
+        post = stored_of(objs[gi])
+        if st.get("feed") and "result" in d:
+            # the returned grid becomes an input of later steps (its contents: what the call returned, already compared above)
+            r = d["result"]
+            if type(r).__name__ == "Grid2D":
+                m = enc_mask2(r.mask)
+                nsh = {"k": "2d", "bits": m["bits"], "ps": [S(v) for v in m["ps"]], "org": [S(v) for v in m["org"]], "cs": enc_pairs(slim_nd(r))}
+            elif type(r).__name__ == "Grid2DIrregular": nsh = {"k": "irr", "cs": enc_pairs(to_nd(r))}
+            else: nsh = None
+            if nsh is not None and holds(r, nsh, e):
+                objs.append(r); shs.append(nsh); shs0.append(nsh)
+        steps.append(f"(HCall {cnat(gi)} {c_term(d['parts'])} {c_pts(post)})")
+        if not d["py_ok"]: py_ok = False; notes.append(f"step {len(steps) - 1}: " + "; ".join(d["notes"]))
+        if fnd: finding = fnd
+        ncalls += 1; kinds.append(ci["op"])
+        outs.append({"seen": [[str(a), str(b)] for a, b in d["seen"]][:8], "result": summarize(d["out"]), "notes": d["notes"]})
+    if not ncalls:
+        return {"coq": None, "out": "skipped: every call within 1e-3 of the radial minimum", "py_ok": None, "kind": "hist:skipped", "nontrivial": False}
+    coq = f"(KHist {cz(e)} {clist([c_gspec(s) for s in shs0])} {clist(steps)})"
+    res = {"coq": coq, "out": outs[:4], "py_ok": py_ok, "nontrivial": True,
+           "kind": "hist:" + "/".join(s["k"] + variant(g) for s, g in zip(shs0, inp["grids"])) + ("/fed" * (len(shs0) - len(inp["grids"])))
+                   + ("@2^%d" % e if e else "")}
     if not py_ok: res["detail"] = "; ".join(notes)
-    if finding: res["finding"] = finding
+    elif finding: res["finding"] = finding
     return res
 
 DEC = {"array": "ToArray", "grid": "ToGrid", "vector": "ToVector"}
@@ -390,8 +693,8 @@ def summarize(out):
 
 def extra_evidence():
     return {"skipped_in_band": SKIPPED["band"],
-            "band_rule": "relocate/stack cases with a coordinate whose squared radius is within 1/1024 of rmin^2 (or exactly on it after a "
-                         "rotation) are skipped: the implementation's comparison r < rmin is taken on rounded square roots"}
+            "band_rule": "relocate/stack calls with a coordinate whose squared radius is within 1/1024 (times the squared unit) of rmin^2 (or exactly "
+                         "on it after a rotation) are skipped: the implementation's comparison r < rmin is taken on rounded square roots"}
 
 # --------------------------------------------------------------------------------------------- generators
 PS = ["1/4", "1/2", "1", "3/2", "2", "3"]
@@ -442,7 +745,7 @@ def rand_ufun(rng, want, allow_drop=False, allow_list=True):
     return {"list": False, "fs": [one()]}
 IDENT = {"list": False, "fs": [["P", ["aff", "1", "0", "0"], ["aff", "0", "1", "0"]]]}     # returns the grid itself
 
-def near_pts(rmin_choices):
+def near_pts(rmin_choices, p0=0.06):
     """coordinates clustered around the origin / a centre, including exactly the centre and exactly radius = rmin"""
     ring = {"5/4": [("3/4", "1"), ("-1", "3/4")], "5/2": [("3/2", "2"), ("-2", "-3/2"), ("5/2", "0")], "5": [("3", "4"), ("-4", "3"), ("0", "-5")],
             "13/4": [("5/4", "3"), ("-3", "5/4")], "1": [("1", "0"), ("0", "-1")], "1/2": [("0", "1/2")], "2": [("-2", "0")],
@@ -451,7 +754,7 @@ def near_pts(rmin_choices):
         out = []
         for _ in range(n):
             t = rng.random()
-            if t < 0.06: p = (F(0), F(0))
+            if t < p0: p = (F(0), F(0))
             elif t < 0.25 and rm in ring:
                 q = rng.choice(ring[rm]); p = (F(q[0]), F(q[1]))
             elif t < 0.75: p = (F(rng.randint(-40, 40), 16), F(rng.randint(-40, 40), 16))
@@ -474,18 +777,191 @@ def centre_towards(rng, g, d):
     a = max(F(0), hy + abs(small) - hx) + F(rng.randint(1, 8), 4)
     return [S(oy + small), S(ox + (a if d == "-x" else -a))]
 
+# ---- storage / derivation variants
+SHIFTS = ["1/2", "-3/4", "2", "1/16", "-5"]
+def add_variant(rng, g, native2d=False, p_plain=0.45):
+    """decorate a grid specification with a storage format and a chain of derivations (see build_grid)"""
+    k = g["k"]
+    if rng.random() < p_plain: return g
+    g = dict(g)
+    masked = k in ("mask", "2d", "1d")
+    can_native = k == "1d" or (masked and native2d)
+    if can_native and rng.random() < 0.5:
+        g["store"] = rng.choice(["ctor_native", "ctor_full"])
+        if g["store"] == "ctor_full":
+            nm = sum(1 for b in flat_bits(g) if b)
+            g["junk"] = [S(F(rng.randint(-99, 99), 8)) for _ in range(nm)] if k == "1d" else rand_pts(rng, nm)
+    if k == "raw": ops = ["copy", "view", "fortran", "stride", "add0", "shift"]
+    else: ops = ["copy", "deepcopy", "slice", "add0", "mul1", "neg2", "wna", "shift", "slim", "native"]
+    ds = []
+    for _ in range(rng.choice([0, 1, 1, 2, 3]) if "store" in g else rng.choice([1, 1, 2, 3])):
+        op = rng.choice(ops)
+        ds.append(["shift", rng.choice(SHIFTS)] if op == "shift" else op)
+    if masked and not can_native:
+        # these streams are defined for slim storage only: leave a native detour, but end slim
+        if any(d == "native" for d in ds) and not (ds and ds[-1] == "slim" and "native" not in ds[ds.index("native") + 1:]): ds.append("slim")
+        last_n = max([i for i, d in enumerate(ds) if d == "native"], default=-1)
+        if last_n >= 0 and "slim" not in ds[last_n + 1:]: ds.append("slim")
+    if ds: g["derive"] = ds
+    return g
+def native_1d(rng, g):
+    """a natively stored Grid1D with at least one masked pixel (the masked entries hold 0 or, after a shift, something else)"""
+    g = dict(g)
+    if not any(g["bits"]):
+        j = rng.randrange(len(g["bits"]) + 1)
+        g["bits"] = g["bits"][:j] + [True] + g["bits"][j:]
+    how = rng.randrange(4)
+    if how == 0: g["derive"] = ["native"]
+    elif how == 1: g["store"] = "ctor_native"
+    elif how == 2:
+        g["store"] = "ctor_full"; g["junk"] = [S(F(rng.randint(-99, 99), 8)) for b in g["bits"] if b]
+    else: g["derive"] = ["native", ["shift", rng.choice(SHIFTS)]]
+    if rng.random() < 0.3: g["derive"] = g.get("derive", []) + [rng.choice(["copy", "add0", "slice", "wna"])]
+    return g
+
+# ---- scaled copies
+def scale_grid(g, un):
+    g = dict(g); g.pop("dtype", None)
+    def sv(v): return S(F(v) * un)
+    if "ps" in g: g["ps"] = sv(g["ps"]) if g["k"] == "1d" else [sv(v) for v in g["ps"]]
+    if "org" in g: g["org"] = sv(g["org"]) if g["k"] == "1d" else [sv(v) for v in g["org"]]
+    if "cs" in g: g["cs"] = [[sv(a), sv(b)] for a, b in g["cs"]]
+    if "xs" in g: g["xs"] = [sv(v) for v in g["xs"]]
+    if "junk" in g: g["junk"] = [sv(v) for v in g["junk"]] if g["k"] == "1d" else [[sv(a), sv(b)] for a, b in g["junk"]]
+    if "derive" in g: g["derive"] = [d if isinstance(d, str) else [d[0], sv(d[1])] for d in g["derive"]]
+    return g
+def scale_step(st, un):
+    st = dict(st)
+    def sv(v): return S(F(v) * un)
+    if st["t"] == "edit":
+        st["v"] = [sv(a) for a in st["v"]] if isinstance(st["v"], list) else sv(st["v"])
+        return st
+    if isinstance(st.get("centre"), list): st["centre"] = [sv(v) for v in st["centre"]]
+    if st.get("rmin") is not None: st["rmin"] = sv(st["rmin"])
+    return st
+
+# ---- histories
+def rand_call(rng, g, centre0, homogeneous=False):
+    """one decorated call that the grid kind admits"""
+    k = g["k"]
+    native2d = k in ("mask", "2d") and (g.get("store", "slim") != "slim" or "native" in g.get("derive", []))
+    if native2d: ops = ["make", "make", "project"]
+    elif k == "1d": ops = ["make", "make", "project", "project", "stack", "stack"]
+    elif k == "raw": ops = ["make", "relocate", "relocate", "stack", "stack", "project"]
+    else: ops = ["make", "project", "relocate", "relocate", "stack", "stack"]
+    op = rng.choice(ops)
+    def ufun(want, **kw):
+        u = rand_ufun(rng, want, **kw)
+        if homogeneous:
+            for f in u["fs"]:
+                for j in range(1, len(f)):
+                    if f[j][0] == "quad": f[j] = ["cum", f[j][1], f[j][2]]
+                    elif f[j][0] == "aff": f[j] = ["aff", f[j][1], f[j][2], "0"]
+        return u
+    st = {"t": "call", "op": op, "o": rng.choice([0, 0, 1, None])}
+    near = [S(centre0[0] + F(rng.randint(-6, 6), 4)), S(centre0[1] + F(rng.randint(-6, 6), 4))]
+    if op == "make":
+        st["dec"] = rng.choice(["array", "grid", "vector"])
+        st["u"] = ufun("V" if st["dec"] == "array" else "P", allow_drop=rng.random() < 0.1)
+    elif op == "project":
+        st["centre"] = rng.choice(["absent", None, near, near]); st["angle"] = rng.choice(["absent", None] + [list(a) for a in ANGLES])
+        st["u"] = ufun(rng.choice("VP") if k == "irr" else "V", allow_list=False)
+    elif op == "relocate":
+        st["rmin"] = rng.choice(RMINS + RMINS + [None]); st["rad"] = ["euclid"] if rng.random() < 0.75 else ["ellip", rng.choice(["2", "1/2"])]
+        st["u"] = ufun(rng.choice("VP")) if rng.random() < 0.7 else IDENT
+    else:
+        st["dec"] = rng.choice(["array", "grid"] if k == "1d" else ["array", "grid", "vector"])
+        st["rmin"] = rng.choice(RMINS + RMINS + [None]); st["centre"] = near; st["angle"] = list(rng.choice(ANGLES))
+        st["nested"] = rng.random() < 0.5
+        st["u"] = ufun("V" if st["dec"] == "array" else "P")
+    return st
+
+def n_stored(g):
+    if "n" in g: return g["n"]
+    sh = shadow_of(g)
+    return len(sh_stored(sh))
+def rand_hist(rng, e=0, kinds=("mask", "2d", "irr", "1d", "raw"), force_native1d=False, min_calls=2):
+    c0 = (F(rng.randint(-8, 8), 4), F(rng.randint(-8, 8), 4))
+    npf = near_pts(RMINS, p0=0.02)
+    def pts(r, n): return npf(r, n, c=c0 if rng.random() < 0.5 else (F(0), F(0)), rm=rng.choice(RMINS))
+    g0 = rand_grid(rng, kinds=kinds, pts=pts)
+    if rng.random() < 0.08: g0 = as_int(rng, g0)
+    if g0["k"] == "1d" and (force_native1d or rng.random() < 0.5): g0 = native_1d(rng, g0)
+    else: g0 = add_variant(rng, g0, native2d=rng.random() < 0.3, p_plain=0.4)
+    grids = [g0]
+    if rng.random() < 0.35:
+        # a second grid of the same kind on an equal mask with other contents, served by the same profile objects
+        g1 = dict(g0)
+        if g1["k"] == "mask": g1["k"] = "2d"
+        if g1["k"] == "1d": g1["xs"] = [S(F(rng.randint(-64, 64), 8)) for _ in g0["xs"]]
+        else: g1["cs"] = pts(rng, len(g0["cs"]) if "cs" in g0 else n_coords(g0))
+        if g0.get("dtype") == "int": g1 = as_int(rng, g1)
+        grids.append(g1)
+    steps = []
+    ncall = rng.randint(min_calls, 4)
+    for c in range(ncall):
+        gi = rng.randrange(len(grids))
+        st = rand_call(rng, grids[gi], c0, homogeneous=e != 0); st["gi"] = gi
+        if c and rng.random() < 0.4:     # the same call again (perhaps through another profile object)
+            st = dict(steps[[j for j, x in enumerate(steps) if x["t"] == "call"][-1]], o=st["o"]); st.pop("feed", None); gi = st["gi"]
+        steps.append(st)
+        gk = grids[gi]
+        if (st["op"] in ("make", "stack") and st.get("dec") == "grid" and not st["u"]["list"] and gk["k"] in ("mask", "2d", "irr", "1d")
+                and gk.get("store", "slim") == "slim" and "native" not in gk.get("derive", []) and rng.random() < 0.6 and c + 1 < ncall):
+            st["feed"] = True                        # the returned Grid2D / Grid2DIrregular is used as a grid from now on
+            grids.append({"k": "irr" if gk["k"] == "irr" else "2d", "n": gk["n"] if "n" in gk else n_coords(gk), "virtual": True})
+        if c + 1 < ncall and rng.random() < 0.45:
+            gi = rng.randrange(len(grids)); g = grids[gi]
+            n = n_stored(g)
+            kk = rng.randrange(n)
+            if g["k"] == "1d": v, comp = S(F(rng.randint(-64, 64), 8)), None
+            else:
+                comp = rng.choice([None, None, 0, 1])
+                pv = pts(rng, 1)[0]
+                v = pv if comp is None else pv[comp]
+            if g.get("dtype") == "int":            # numpy would truncate: integer grids get integer edits
+                v = S(rng.randint(-6, 6)) if not isinstance(v, list) else [S(rng.randint(-6, 6)), S(rng.randint(-6, 6))]
+            steps.append({"t": "edit", "gi": gi, "k": kk, "v": v, "comp": comp})
+    grids = [g for g in grids if not g.get("virtual")]
+    inp = {"op": "hist", "e": e, "rpc": rng.random() < 0.5, "grids": grids, "steps": steps}
+    if e:
+        un = unit(e)
+        inp["grids"] = [scale_grid(g, un) for g in grids]; inp["steps"] = [scale_step(st, un) for st in steps]
+    return inp
+
+def int_pts(rng, n):
+    return [[S(rng.randint(-6, 6)), S(rng.randint(-6, 6))] for _ in range(n)]
+def as_int(rng, g):
+    """the same kind of grid with integer coordinates held in an integer array (structures keep the dtype they are given)"""
+    g = dict(g); g["dtype"] = "int"
+    if g["k"] == "1d": g["xs"] = [S(rng.randint(-9, 9)) for _ in g["xs"]]
+    elif g["k"] == "mask": g["k"] = "2d"; g["cs"] = int_pts(rng, n_coords(g))
+    else: g["cs"] = int_pts(rng, len(g["cs"]))
+    return g
+def full_pts(rng, n):
+    """coordinates with full 53-bit mantissas (nothing on a lattice), a few exact zeros"""
+    def one():
+        t = rng.random()
+        if t < 0.08: return 0.0
+        return rng.uniform(-8, 8) if t < 0.8 else rng.uniform(-1, 1) * 10 ** rng.randint(-6, 3)
+    return [[S(Fraction(one())), S(Fraction(one()))] for _ in range(n)]
+
 def gen_inputs(tier, rng):
     big = tier == "thorough"
     N = 8 if big else 1
     decs = ["array", "grid", "vector"]
-    # ---- makers: every decorator x every grid kind, values / pairs / lists
-    for i in range(200 * N):
+    # ---- makers: every decorator x every grid kind (all storage formats / derived objects), values / pairs / lists
+    for i in range(130 * N):
         dec = decs[i % 3]
-        g = rand_grid(rng)
+        g = rand_grid(rng, pts=full_pts if i % 4 == 3 else None)
+        if i % 11 == 5: g = as_int(rng, g)
+        if g["k"] == "1d" and i % 2:
+            g = native_1d(rng, g)
+        else: g = add_variant(rng, g, native2d=True)
         u = rand_ufun(rng, "V" if dec == "array" else "P", allow_drop=(i % 7 == 0))
         yield {"op": "make", "dec": dec, "grid": g, "u": u}
     # ---- project_grid
-    for i in range(150 * N):
+    for i in range(100 * N):
         g = rand_grid(rng, kinds=("mask", "mask", "2d", "irr", "1d", "1d", "raw"), iso=0.3)
         centre = rng.choice(["absent", None, "v", "v", "v", "v"])
         if centre == "v":
@@ -496,20 +972,24 @@ def gen_inputs(tier, rng):
         if angle == "v": angle = list(rng.choice(ANGLES))
         if g["k"] == "irr": u = rand_ufun(rng, rng.choice("VP"), allow_list=(i % 9 == 0))
         else: u = rand_ufun(rng, "V", allow_list=False)
+        if g["k"] == "1d" and i % 2: g = native_1d(rng, g)
+        else: g = add_variant(rng, g, native2d=True, p_plain=0.6)
         yield {"op": "project", "grid": g, "u": u, "centre": centre, "angle": angle,
                "rpc": "default" if (i % 5 == 0 and g["k"] in ("mask", "2d")) else bool(i % 2)}
     # ---- relocate_to_radial_minimum alone
     npf = near_pts(RMINS)
-    for i in range(160 * N):
+    for i in range(100 * N):
         rmin = rng.choice(RMINS + RMINS + [None])
         def pts(r, n): return npf(r, n, rm=rmin)
         kinds = ("2d", "irr", "raw") if i % 5 else ("mask",)
-        g = rand_grid(rng, kinds=kinds, pts=pts)
+        g = rand_grid(rng, kinds=kinds, pts=full_pts if i % 6 == 1 else pts)
+        if i % 11 == 5: g = as_int(rng, g)
+        g = add_variant(rng, g, p_plain=0.6)
         rad = ["euclid"] if i % 4 else ["ellip", rng.choice(["2", "1/2"])]
         u = rand_ufun(rng, rng.choice("VP")) if i % 3 else IDENT
         yield {"op": "relocate", "grid": g, "u": u, "rmin": rmin, "rad": rad}
     # ---- the stack to_X(transform(relocate(f))), plain and nested
-    for i in range(200 * N):
+    for i in range(120 * N):
         dec = decs[i % 3]
         rmin = rng.choice(RMINS + RMINS + [None])
         centre = (F(rng.randint(-8, 8), 4), F(rng.randint(-8, 8), 4))
@@ -519,7 +999,16 @@ def gen_inputs(tier, rng):
             centre = (F(g["org"][0]) + F(rng.randint(-2, 2), 2) * F(g["ps"][0]), F(g["org"][1]) + F(rng.randint(-2, 2), 2) * F(g["ps"][1]))
         else:
             g = rand_grid(rng, kinds=("2d", "irr", "raw", "1d"), pts=pts)
+            if i % 11 == 5: g = as_int(rng, g)
+        if g["k"] == "1d" and i % 2: g = native_1d(rng, g)
+        else: g = add_variant(rng, g, p_plain=0.6)
         if g["k"] == "1d" and dec == "vector": dec = "array"
         u = rand_ufun(rng, "V" if dec == "array" else "P")
         yield {"op": "stack", "dec": dec, "grid": g, "u": u, "rmin": rmin, "centre": [S(centre[0]), S(centre[1])],
                "angle": list(rng.choice(ANGLES)), "nested": bool(i % 2)}
+    # ---- histories: grid and profile OBJECTS that live through several calls and in-place edits
+    for i in range(110 * N):
+        yield rand_hist(rng, force_native1d=(i % 5 == 0), kinds=("1d",) if i % 5 == 0 else ("mask", "2d", "irr", "1d", "raw"))
+    # ---- the same at other orders of magnitude (tiny: the shipped radial minima are 1e-8; huge)
+    for i in range(45 * N):
+        yield rand_hist(rng, e=UNITS[i % len(UNITS)], min_calls=1)
